@@ -175,7 +175,19 @@ PROPS = {
                      "z3's built-in div/mod axioms for a symbolic divisor 4^(k-1) (nonlinear).",
                 technique="postconditions of obtain_latters/obtain_formers (modular arithmetic VCs) + k-mer shift lemmas + bounded exhaustive small k"),
     "C14": dict(title="The three graph representations are interchangeable", level="other", bounded=["C14"], design="8/C14",
-                explanation="Conversions between accessor, latter map and adjacency matrix; leaf queries.",
+                proof=["dsw.graphized.obtain_vertices", "dsw.graphized.accessor_to_latter_map", "dsw.graphized.latter_map_to_accessor#plain",
+                       "harness.c14_roundtrip_latter_map", "lemma.ipow_mono"],
+                explanation="PROVED for every arc subset (any is_accessor matrix, not only vertex-induced ones) of every order: accessor_to_latter_map returns a "
+                            "dict whose keys are exactly the vertices with an arc, each mapped to the list of its live successors in A<C<G<T order, "
+                            "inserted in ascending key order; latter_map_to_accessor (no threshold) of a map that describes an accessor acc0 (ghost) "
+                            "returns exactly acc0 (whole-matrix postcondition: every row, so a conversion that corrupts an untouched row cannot "
+                            "verify); hence accessor -> latter map -> accessor is the identity (client harness); obtain_vertices returns exactly the "
+                            "vertices with arcs in ascending order.  BOUNDED (never counted as proved): the adjacency-matrix conversions (set-iteration "
+                            "order, N x N fancy stores), the ValueError on illegal matrices, and the depth-d leaf queries.",
+                demoted=["adjacency-matrix conversions and their round trip - bounded B2 (exhaustive order-1 arc subsets in the thorough tier)",
+                         "illegal-matrix rejection - bounded B2", "leaf queries (multiset of end points of d-step walks) - bounded B2"],
+                claim="Mixed: latter-map conversions, their round trip and the vertex listing deductive; matrix conversions and leaf queries bounded.",
+                note="Trusted: numpy where / sum(axis=1) / astype / boolean-mask indexing / ones contracts; dict semantics (insertion order) as modelled.",
                 technique="whole-view postconditions of the conversions + bounded exhaustive order-1 arc subsets"),
     "C15": dict(title="String big-number arithmetic equals integer arithmetic", level="proof", bounded=["C15"], design="8/C15",
                 proof=["dsw.operation.calculus_addition", "dsw.operation.calculus_subtraction", "dsw.operation.calculus_multiplication",
